@@ -163,8 +163,8 @@ func (r *Run) Mark(tok string) {
 
 func (r *Run) Fingerprint() uint64 { return r.fp }
 
-func (r *Run) Fault(kind string)  { r.Faults[kind]++ }
-func (r *Run) Probe(name string)  { r.Probes[name]++ }
+func (r *Run) Fault(kind string)       { r.Faults[kind]++ }
+func (r *Run) Probe(name string)       { r.Probes[name]++ }
 func (r *Run) Stat(name string, n int) { r.Stats[name] += n }
 
 // Viol builds a violation for this run's property.
